@@ -302,6 +302,18 @@ theorem ticker_failed_renewal_stops_leader (R k n : Nat) (a1 a2 : TRes) (rest : 
   have := tickerLeader_stops R k 1 n a1 a2 rest [] h1 h2 hk
   simp only [tickerRun, ↓reduceIte, this, show 1 + k = k + 1 by omega]
 
+/-- …and that instant lies before the deadline of the lease it last renewed
+    (`k·R + T`, last success at tick `k`, or the campaign at 0) whenever the
+    renew period is shorter than the lease, which every fixed configuration
+    satisfies (`two_renewals_within_ttl`). Calls take no time in `tickerRun`:
+    a renewal call that blocks is outside this statement. -/
+theorem ticker_stops_before_lease_deadline (R T k n : Nat) (a1 a2 : TRes) (rest : List TRes)
+    (h1 : renewErr a1 ≠ .ok) (h2 : renewErr a2 ≠ .ok) (hk : k < n) (hRT : R < T) :
+    ∃ t e, (tickerRun true R n (List.replicate k .ok ++ a1 :: a2 :: rest)).closed = some (t, e)
+      ∧ e ≠ .ok ∧ t < k * R + T := by
+  refine ⟨(k + 1) * R, renewErr a2, (ticker_failed_renewal_stops_leader R k n a1 a2 rest h1 h2 hk).1, h2, ?_⟩
+  rw [Nat.add_mul]; omega
+
 -- non-vacuity: two good ticks, then ErrNotLeader twice: closed at 3 s, four ticks were allowed
 example : tickerRun true 1000 4 [.ok, .ok, .notLeader, .notLeader]
     = { calls := [1000, 2000, 3000, 3000], closed := some (3000, .notLeader) } := by decide
@@ -315,31 +327,55 @@ example : tickerRun false 1000 5 [.follower, .leader]
 
 /-- In cluster mode an accepted configuration contends under an address that
     was written in the configuration (listenPeer, else listen) — never under a
-    built-in default, never under an unspecified address. -/
-theorem election_id_configured (listen peer id : Bytes) (unspec : Bool)
-    (h : electionId true listen peer unspec = some id) :
-    unspec = false ∧ ((peer ≠ [] ∧ id = peer) ∨ (peer = [] ∧ listen ≠ [] ∧ id = listen)) := by
-  unfold electionId peerAddr at h
-  by_cases hp : peer = [] <;> by_cases hl : listen = [] <;> cases unspec <;> simp_all
+    built-in default — and whose host part is not empty / 0.0.0.0 / ::.
+    (Little more than the definition of `electionId` read backwards; its
+    content is the tie of `electionId` to the real configuration code.) -/
+theorem election_id_configured (listen peer id : Bytes)
+    (h : electionId true listen peer = some id) :
+    ((peer ≠ [] ∧ id = peer) ∨ (peer = [] ∧ listen ≠ [] ∧ id = listen)) ∧
+    ∃ host, hostOf id = some host ∧ unspecHost host = false := by
+  unfold electionId at h
+  simp only [↓reduceIte] at h
+  by_cases hd : listen = [] ∧ peer = []
+  · simp [hd] at h
+  · simp only [hd, ↓reduceIte] at h
+    cases hh : hostOf (peerAddr listen peer) with
+    | none => simp [hh] at h
+    | some host =>
+      simp only [hh] at h
+      by_cases hu : unspecHost host = true
+      · simp [hu] at h
+      · simp only [hu, Bool.false_eq_true, ↓reduceIte, Option.some.injEq] at h
+        subst h
+        refine ⟨?_, host, hh, by simpa using hu⟩
+        unfold peerAddr
+        by_cases hp : peer = []
+        · have hl : listen ≠ [] := fun hl => hd ⟨hl, hp⟩
+          simp [hp, hl]
+        · simp [hp]
 
 /-- Two hosts whose configured peer addresses differ contend under different
-    ids (the hypothesis "ids are distinct" of `at_most_one_holder` reduced to
-    "configured addresses are distinct"). -/
-theorem distinct_addresses_distinct_ids (l1 p1 l2 p2 i1 i2 : Bytes) (u1 u2 : Bool)
-    (h1 : electionId true l1 p1 u1 = some i1) (h2 : electionId true l2 p2 u2 = some i2)
+    ids: the hypothesis "ids are distinct" of `at_most_one_holder` is REDUCED
+    to "the configured peer strings are distinct" (not discharged: two hosts
+    given the same string, e.g. `localhost:18001`, are one contender). -/
+theorem distinct_addresses_distinct_ids (l1 p1 l2 p2 i1 i2 : Bytes)
+    (h1 : electionId true l1 p1 = some i1) (h2 : electionId true l2 p2 = some i2)
     (hne : (if p1 = [] then l1 else p1) ≠ (if p2 = [] then l2 else p2)) : i1 ≠ i2 := by
-  obtain ⟨_, c1⟩ := election_id_configured l1 p1 i1 u1 h1
-  obtain ⟨_, c2⟩ := election_id_configured l2 p2 i2 u2 h2
+  obtain ⟨c1, _⟩ := election_id_configured l1 p1 i1 h1
+  obtain ⟨c2, _⟩ := election_id_configured l2 p2 i2 h2
   rcases c1 with ⟨hp1, rfl⟩ | ⟨hp1, _, rfl⟩ <;> rcases c2 with ⟨hp2, rfl⟩ | ⟨hp2, _, rfl⟩ <;>
     simp_all
 
--- non-vacuity: the default server section is refused in cluster mode, accepted otherwise;
--- a configured address is the id
-example : electionId true [] [] false = none := by decide
-example : electionId false [] [] false = some defaultListen := by decide
-example : electionId true [49,58,49] [] false = some [49,58,49] := by decide
-example : electionId true [49,58,49] [50,58,50] false = some [50,58,50] := by decide
-example : electionId true [49,58,49] [] true = none := by decide
+-- non-vacuity: default server section refused in cluster mode, accepted otherwise;
+-- "1.2.3.4:1" is its own id; 0.0.0.0 / empty host / [::] refused; a host name passes
+example : electionId true [] [] = none := by decide
+example : electionId false [] [] = some defaultListen := by decide
+example : electionId true [49,46,50,46,51,46,52,58,49] [] = some [49,46,50,46,51,46,52,58,49] := by decide
+example : electionId true [49,46,50,46,51,46,52,58,49] [53,46,54,46,55,46,56,58,50] = some [53,46,54,46,55,46,56,58,50] := by decide
+example : electionId true [48,46,48,46,48,46,48,58,49] [] = none := by decide
+example : electionId true [58,49] [] = none := by decide
+example : electionId true [] [91,58,58,93,58,49] = none := by decide
+example : electionId true [] [108,111,99,97,108,104,111,115,116,58,49] = some [108,111,99,97,108,104,111,115,116,58,49] := by decide
 
 /-! ### lease / renew bounds of the configuration -/
 
